@@ -44,9 +44,15 @@ def implies(a, b):
     return (not a) or b
 
 
+def unchanged_except(a, b, *skip):
+    names = set(vars(a)) | set(vars(b))
+    return all(getattr(a, f, None) == getattr(b, f, None) for f in names if f not in skip)
+
+
 def native_env():
     from . import streams
-    env = {"implies": implies, "math": __import__("math"), "new_stream": streams.new_stream, "utf8len": streams.utf8len}
+    env = {"implies": implies, "math": __import__("math"), "new_stream": streams.new_stream, "utf8len": streams.utf8len,
+           "unchanged_except": unchanged_except}
     for n, s in api.SPECS.items():
         env[n] = s.fn
     for n, l in api.LEMMAS.items():
@@ -56,6 +62,11 @@ def native_env():
             env[en] = real_enum(en)
         except Exception:
             pass
+    # spec functions are plain Python defined in the sidecar modules: give them the same vocabulary
+    for n, s in api.SPECS.items():
+        g = s.fn.__globals__
+        for k, v in env.items():
+            g.setdefault(k, v)
     return env
 
 
